@@ -39,17 +39,27 @@ def gen_scenario(seed, i):
             defined |= set((c.get("tasks") or {}).keys())
     pool = sorted(defined) * 4 + TASKS if defined else TASKS
     inv = {"args": a, "flags": fl, "task": rng.choice(pool), "task_args": rng.choice([[], [], ["x"], ["-a", "b c"]]),
-           "ninja_rc": rng.choice([0, 0, 0, 1])}
-    return {"project": p, "invocations": [inv]}
+           "ninja_rc": rng.choice([0, 0, 0, 1, "kill"])}
+    sc = {"project": p, "invocations": [inv]}
+    if rng.random() < 0.4:
+        # a wider generate-only run first: the task run is then served from its cache (which lists every build of the wide run)
+        sc["warmup"] = {"args": {k: v for k, v in a.items() if k in ("select", "disable", "define")}, "flags": {"generate_only": True}}
+    return sc
 
 
 def run_scenario(sc):
     s = clirun.Scenario(sc["project"])
     try:
         inv = sc["invocations"][0]
+        dump0 = None
+        if sc.get("warmup"):
+            r0 = s.invoke(sc["warmup"])
+            dump0 = r0["dump"]
         r = s.invoke(inv)
-        req = s.model_request(inv)
-        return {"inv": inv, "rc": r["rc"], "spawns": r["spawns"], "dump": r["dump"], "req": req, "stderr": r["stderr"][-300:], "root": s.root}
+        hit = bool(r["cache_hit"] and dump0 is not None)
+        req = s.model_request(inv, cache_args=sc["warmup"]["args"] if hit else None)
+        return {"inv": inv, "rc": r["rc"], "spawns": r["spawns"], "dump": dump0 if hit else r["dump"], "cache_hit": hit, "req": req,
+                "stderr": r["stderr"][-300:], "root": s.root}
     finally:
         s.close()
 
@@ -72,6 +82,7 @@ def judge(chk, sc, step):
     chk.evaluations += 1
     fl = inv.get("flags", {})
     t = inv["task"]
+    chk.count("served-from-wider-cache" if step.get("cache_hit") else "generated")
     nl = [l for l in sp if l.startswith("N:")]
     sl = [l for l in sp if l.startswith("S:")]
     nt = False
